@@ -7,23 +7,20 @@
    operation); a race is two machines stepped by an arbitrary schedule.
    Definitions only; proofs are in FenceProofs.v. *)
 From Coq Require Import List NArith Bool Arith.
+From SeataV Require Export Fence.FenceRulesDef.
+From SeataV Require Import Gen.FenceRules.
 Import ListNotations.
 
-Inductive status := Tried | Committed | Rollbacked | Suspended.
-Inductive phase := Prepare | Commit | Rollback | Invalid.
+(* The decisions of PrepareFence / CommitFence / RollbackFence, the old status of the compare-and-set
+   and the phase dispatch of DoFence are NOT written here: they are the tables gen_prepare,
+   gen_commit, gen_rollback, gen_cas_old, gen_dispatch regenerated from the Go source. *)
 Inductive errc := ENone | EFault | EDup | ERefused.
 Inductive opk := OBegin | OPrepIns | OIns | OPrepSel | OSel | OPrepUpd | OUpd | OBiz | OCommit | ORollback.
 
 Inductive pcT :=
-| PcBegin | PcPrepIns (s : status) | PcIns (s : status) | PcPrepSel | PcSel
+| PcBegin | PcPrepIns (s : status) (then_skip : bool) | PcIns (s : status) (then_skip : bool) | PcPrepSel | PcSel
 | PcPrepUpd (s : status) | PcUpd (s : status) | PcBiz | PcCommit | PcRollback | PcDone
 | PcBeginB | PcCommitB.     (* proxy-driver mode only: the second (fence) transaction *)
-
-Definition status_eqb (a b : status) : bool :=
-  match a, b with
-  | Tried, Tried | Committed, Committed | Rollbacked, Rollbacked | Suspended, Suspended => true
-  | _, _ => false
-  end.
 
 Definition ostatus_eqb (a b : option status) : bool :=
   match a, b with
@@ -95,22 +92,45 @@ Definition faulted (t : thread) : bool :=
 Definition skip (prep : bool) (pc : pcT) : pcT :=
   if prep then pc else
   match pc with
-  | PcPrepIns s => PcIns s | PcPrepSel => PcSel | PcPrepUpd s => PcUpd s | x => x
+  | PcPrepIns s k => PcIns s k | PcPrepSel => PcSel | PcPrepUpd s => PcUpd s | x => x
+  end.
+
+Definition handler_of (ph : phase) : option hname := lookup_handler gen_dispatch (phase_code ph).
+
+Definition rules_of (h : hname) : list rule :=
+  match h with HPrepare => gen_prepare | HCommit => gen_commit | HRollback => gen_rollback end.
+
+(* does the handler read the record first? (PrepareFence does not) *)
+Definition reads_first (h : hname) : bool := match h with HPrepare => false | _ => true end.
+
+(* where a decision leads; drv: the proxy driver cannot skip the business *)
+Definition goto_decision (drv : bool) (d : decision) : option pcT :=
+  match d with
+  | DRefuse | DUnknown _ => None
+  | DSkip => Some (if drv then PcBiz else PcCommit)
+  | DProceed => Some PcBiz
+  | DUpdate s => Some (PcPrepUpd s)
+  | DInsert s k => Some (PcPrepIns s k)
   end.
 
 Definition first_pc (ph : phase) : pcT :=
-  match ph with
-  | Prepare => PcPrepIns Tried
-  | Commit | Rollback => PcPrepSel
-  | Invalid => PcRollback
+  match handler_of ph with
+  | None => PcRollback
+  | Some h =>
+      if reads_first h then PcPrepSel
+      else match goto_decision false (decide (rules_of h) None) with
+           | Some pc => pc
+           | None => PcRollback
+           end
   end.
+
+Definition first_err (ph : phase) : bool :=      (* does the delivery fail before touching the database? *)
+  match first_pc ph with PcRollback => true | _ => false end.
 
 Definition init_thread (prep : bool) (ph : phase) (fault : option nat) : thread :=
   if prep then mkT ph PcBegin None false 0 ENone 0 [] fault
-  else match ph with
-       | Invalid => mkT ph PcRollback None false 0 ERefused 0 [] fault
-       | _ => mkT ph (skip false (first_pc ph)) None false 0 ENone 0 [] fault
-       end.
+  else if first_err ph then mkT ph PcRollback None false 0 ERefused 0 [] fault
+  else mkT ph (skip false (first_pc ph)) None false 0 ENone 0 [] fault.
 
 Definition view (t : thread) (sh : shared) : option status :=
   match t_wrow t with Some s => Some s | None => s_row sh end.
@@ -127,18 +147,15 @@ Definition commit_tx (t : thread) (sh : shared) : shared :=
       (if t_weff t then s_effs sh ++ [t_ph t] else s_effs sh)
       (s_owner sh).
 
-(* what CommitFence / RollbackFence decide from the row SELECT ... FOR UPDATE returned *)
+(* what CommitFence / RollbackFence decide from the row SELECT ... FOR UPDATE returned: the table *)
 Definition after_select (drv prep : bool) (t : thread) (v : option status) : thread :=
-  let decided := if drv then PcBiz else PcCommit in   (* proxy-driver mode cannot skip the business *)
-  match t_ph t, v with
-  | Commit, Some Tried => set_pc t (skip prep (PcPrepUpd Committed))
-  | Commit, Some Committed => set_pc t decided                      (* idempotent: no callback *)
-  | Commit, _ => fail t ERefused PcRollback                         (* no record / rollbacked / suspended *)
-  | Rollback, None => set_pc t (skip prep (PcPrepIns Suspended))    (* empty rollback: suspend *)
-  | Rollback, Some Tried => set_pc t (skip prep (PcPrepUpd Rollbacked))
-  | Rollback, Some Committed => fail t ERefused PcRollback
-  | Rollback, Some _ => set_pc t decided                            (* idempotent: no callback *)
-  | _, _ => fail t ERefused PcRollback
+  match handler_of (t_ph t) with
+  | None => fail t ERefused PcRollback
+  | Some h =>
+      match goto_decision drv (decide (rules_of h) v) with
+      | Some pc => set_pc t (skip prep pc)
+      | None => fail t ERefused PcRollback
+      end
   end.
 
 Definition commit_eff (t : thread) (sh : shared) : shared :=
@@ -156,28 +173,24 @@ Definition step (drv prep : bool) (tid : bool) (t : thread) (sh : shared) : thre
       let f := faulted t in let t1 := tick t OBegin in
       if f then (fail t1 EFault PcDone, sh)
       else if drv then (set_pc t1 PcBeginB, sh)
-      else match t_ph t with
-           | Invalid => (fail t1 ERefused PcRollback, sh)
-           | ph => (set_pc t1 (skip prep (first_pc ph)), sh)
-           end
+      else if first_err (t_ph t) then (fail t1 ERefused PcRollback, sh)
+      else (set_pc t1 (skip prep (first_pc (t_ph t))), sh)
   | PcBeginB =>
       let f := faulted t in let t1 := tick t OBegin in
       if f then (fail t1 EFault PcDone, sh)          (* the target transaction is leaked, it holds nothing *)
-      else match t_ph t with
-           | Invalid => (fail t1 ERefused PcRollback, sh)
-           | ph => (set_pc t1 (skip prep (first_pc ph)), sh)
-           end
-  | PcPrepIns s =>
+      else if first_err (t_ph t) then (fail t1 ERefused PcRollback, sh)
+      else (set_pc t1 (skip prep (first_pc (t_ph t))), sh)
+  | PcPrepIns s k =>
       let f := faulted t in let t1 := tick t OPrepIns in
-      if f then (fail t1 EFault PcRollback, sh) else (set_pc t1 (PcIns s), sh)
-  | PcIns s =>
+      if f then (fail t1 EFault PcRollback, sh) else (set_pc t1 (PcIns s k), sh)
+  | PcIns s k =>
       let f := faulted t in let t1 := tick t OIns in
       if f then (fail t1 EFault PcRollback, sh)
       else let sh1 := lock tid sh in
            match view t sh with
            | Some _ => (fail t1 EDup PcRollback, sh1)
            | None => (set_pc (set_wrow t1 s)
-                        (match t_ph t with Rollback => if drv then PcBiz else PcCommit | _ => PcBiz end), sh1)
+                        (if k then (if drv then PcBiz else PcCommit) else PcBiz), sh1)
            end
   | PcPrepSel =>
       let f := faulted t in let t1 := tick t OPrepSel in
@@ -194,9 +207,12 @@ Definition step (drv prep : bool) (tid : bool) (t : thread) (sh : shared) : thre
       let f := faulted t in let t1 := tick t OUpd in
       if f then (fail t1 EFault PcRollback, sh)
       else let sh1 := lock tid sh in
-           match view t sh with
-           | Some Tried => (set_pc (set_wrow t1 s) PcBiz, sh1)       (* compare-and-set on status = tried *)
-           | _ => (fail t1 ERefused PcRollback, sh1)
+           (* compare-and-set: the row must still have the status the UPDATE names *)
+           match view t sh, gen_cas_old with
+           | Some cur, Some old =>
+               if status_eqb cur old then (set_pc (set_wrow t1 s) PcBiz, sh1)
+               else (fail t1 ERefused PcRollback, sh1)
+           | _, _ => (fail t1 ERefused PcRollback, sh1)
            end
   | PcBiz =>
       let f := faulted t in let t1 := tick (inc_ran t) OBiz in
@@ -263,7 +279,7 @@ Definition drv_supported (row : option status) (ph : phase) (fault : option nat)
 Record rstate := mkR { r_t0 : thread; r_t1 : thread; r_sh : shared }.
 
 Definition needs_lock (pc : pcT) : bool :=
-  match pc with PcIns _ | PcSel | PcUpd _ => true | _ => false end.
+  match pc with PcIns _ _ | PcSel | PcUpd _ => true | _ => false end.
 
 Definition enabled (tid : bool) (t : thread) (sh : shared) : bool :=
   negb (done t) &&
